@@ -121,6 +121,9 @@ func replayBehMain(args []string) {
 			case "Frexp":
 				e = Ev{"op": "Frexp"}
 				e.setDec("x", reg("a", s))
+			case "Exp", "Exp2", "Exp10", "Expm1", "Log", "Log2", "Log10", "Log1p", "Sqrt", "Cbrt":
+				e = Ev{"op": op}
+				e.setDec("x", reg("a", s))
 			case "Binary", "Json", "Sql", "Int":
 				// two calls: the encoding / conversion, then the way back
 				var e1 Ev
